@@ -28,7 +28,16 @@ type MethodInfo struct {
 	Target  int                    `json:"target"`
 	Context []int                  `json:"context,omitempty"`
 	Err     bool                   `json:"err,omitempty"`
+	Update  bool                   `json:"update,omitempty"`
+	Default *DefaultInfo           `json:"default,omitempty"`
 	Extra   map[string]any         `json:"extra,omitempty"`
+}
+
+// DefaultInfo mirrors vsup.DefaultInfo.
+type DefaultInfo struct {
+	Func      string `json:"func"`
+	Update    bool   `json:"update,omitempty"`
+	HasSource bool   `json:"hasSource,omitempty"`
 }
 
 // DriverManifest mirrors vsup.Manifest.
@@ -253,7 +262,10 @@ func MethodInfos(c *model.Conv) ([]*MethodInfo, *model.Reject) {
 			rej.Msg = m.Name + ": " + rej.Msg
 			return nil, rej
 		}
-		mi := &MethodInfo{Name: m.Name, Top: res.Top, Subs: res.Subs, Source: 0, Target: -1, Err: m.Err}
+		mi := &MethodInfo{Name: m.Name, Top: res.Top, Subs: res.Subs, Source: 0, Target: -1, Err: m.Err, Update: m.Update}
+		if m.Default != nil {
+			mi.Default = &DefaultInfo{Func: m.Default.Name, Update: m.Settings.DefaultUpdate, HasSource: m.Default.Source != nil}
+		}
 		for i, r := range m.Roles {
 			switch r {
 			case "source":
